@@ -47,7 +47,7 @@ if __name__ == "__main__":
     dirs = sorted(d for d in glob.glob(os.path.join(here, "seeded", "*")) if os.path.isdir(d))
     if len(sys.argv) > 1:
         dirs = [d for d in dirs if os.path.basename(d) in sys.argv[1:]]
-    with ProcessPoolExecutor(max_workers=10) as ex:
+    with ProcessPoolExecutor(max_workers=8) as ex:
         results = list(ex.map(job, dirs))
     run(["git", "-C", "/repo", "worktree", "prune"])
     out = {}
